@@ -221,6 +221,22 @@ CLAIMED["C19"] = dict(
     technique="Lean 4 frame proof on the heap model + before/after snapshot comparison on the real objects (successful and failing saves)",
     design="7 C19")
 
+CLAIMED["C06"] = dict(
+    text="Registry model of classes/utils.py::_get_class (built-ins, then every sys.modules entry whose _emd_hook is True, hooked "
+         "sub-modules walked to depth < maxdepth; maxdepth regenerated from the source). Kernel-checked for namespaces of any size "
+         "and nesting: C06_absent — a name no searched module binds is NOT found, the lookup fails instead of substituting another "
+         "class; C06_builtin — built-ins are found unless re-bound; C06_unhooked / C06_sub_unhooked / C06_too_deep — modules that do "
+         "not opt in, un-hooked sub-modules and sub-modules at the depth limit are not searched (5 deep in, 6 deep out); "
+         "C06_found_last / C06_exposed — an exposed class is found under its name (the last binding wins: why names must be "
+         "distinct); C06_custom_not_child / C06_custom_is_body — custom_* groups are never tree children.",
+    note="PARTIAL: 'found at any nesting depth <= 5 through hooked sub-modules' is proved for the top level of a hooked module "
+         "(C06_exposed) and decided on concrete chains of depth 5 / 6 (examples); for arbitrary placements it is compared by the "
+         "correspondence on synthetic modules (types.ModuleType in sys.modules, subclasses created with type(), hooks True / absent "
+         "/ False / 1, nesting 0-7) incl. a real save / read of instances, Custom attribute nodes, and the class removed before "
+         "reading. Python's import machinery and classes exposed under an alias are not modelled.",
+    technique="Lean 4 proofs over a registry model + regenerated constants + differential correspondence with synthetic modules and real round-trips",
+    design="7 C06")
+
 NOT_YET = {}
 
 def main():
